@@ -187,8 +187,11 @@ var smallCaps = map[fat2.PTicker]bool{fat2.PTickerDCR: true, fat2.PTickerDGB: tr
 const (
 	GlobalBurnAddress    = "FA2BURNBABYBURNoooooooooooooooooooooooooooooooDGvNXy"
 	GlobalOldBurnAddress = "FA1y5ZGuHSLmf2TqNf6hVMkPiNGyQpQDTFJvDLRkKQaoPo4bmbgu"
-	GlobalMintAddress    = "FA3j16WPCiqsAFHVZcEoL85Khh5RhPCNe6PWHBKgUxrx8MAnbNoy"
 )
+
+// GlobalMintAddress is a variable only so that a scenario can mint to an address whose key the lab holds
+// (the owner of the real one can spend from it; the lab cannot sign for it). Default: the literal address.
+var GlobalMintAddress = "FA3j16WPCiqsAFHVZcEoL85Khh5RhPCNe6PWHBKgUxrx8MAnbNoy"
 
 func mustFA(s string) factom.FAAddress {
 	a, err := factom.NewFAAddress(s)
